@@ -264,10 +264,11 @@ namespace occa {
         // Create check statement
         // Note: At this point, the tile for-loop has an update
         //       with either an [+=] or [-=] update operator
+        expr tileSizeInParen = expr::parens(tileSizeExpr);
         expr bounds = expr::parens(
           (updateExpr.opType() & operatorType::addEq)
-          ? blockIterator + tileSizeExpr
-          : blockIterator - tileSizeExpr
+          ? blockIterator + tileSizeInParen
+          : blockIterator - tileSizeInParen
         );
 
         const binaryOperator_t &checkOp = (const binaryOperator_t&) checkExpr.op;
